@@ -223,7 +223,7 @@ ADDED2 = {'C03': ' Later: after the optimizer has run on a function body, output
     'C05': " Later: input specifications are prepared without x64-sensitive calls outside the precision scope (R-C05h, mirror of C09 R-C09c); graph inputs created for a caller-named call parameter take the caller's element type (R-C05i); no integer element type is chosen from the precision flag alone (R-C05j); complex tensors that no plugin packed (unused inputs, constant result leaves) are declared and stored as a trailing pair of reals (R-C05k).", 'C06': ' Later: control-flow plugins do not serve traced bodies from memo tables with incomplete or lossy keys (R-C06h, mirror of C14 R-C14g); integer canonicalisation of carries excludes bool (R-C06i); single extents of stamped shapes are not overwritten by a loop-context override (R-C06g, confirmed sites are known findings); every position of a subgraph output list gets a value of its own (R-C06j); body variables of Loop / If subgraphs are bound only to the formal input, a clone, a shape-preserving operator on it or the per-step slice (R-C06k).',
     'C07': " Later: formal parameters of a function body copy only the key-recorded fields of the call-site argument (R-C07f); re-trace specifications carry the aval's weak_type and the input signature of the key records every aval field the specifications copy (R-C07g); per-argument renaming tables in the input signature are lossy (R-C07a); a keyword is wired to an input_params graph input only when its value is the parameter itself (R-C07h).", 'C08': " Later: stamped shapes are the output aval's, no extent overwritten by loop context (R-C08i); permuted shape declarations use the permutation of the same tensor's layout (R-C08l); folds refresh the pass-through nodes they keep (R-C08m); the merge skips only rank-0 constants (R-C08k tightened); closed (shape, perm) expressions of Transpose stamps are evaluated on a 3-cycle (R-C08j).", 'C09': ' Later: graph rewrites do not move tensor payloads into (float32) float attributes without a float32 guard (R-C09g); lowerings do not round Python-computed constants to float32 through a literal dtype (R-C09h).',
     'C11': ' Later: opset-gated sibling lowerings of one primitive derive each operand from the same equation inputs (R-C11h); the opset-27 switch to a float16 / bfloat16 Range is bounded by the number of elements the type can count (R-C11i); trailing-axes normalisation operators are emitted for single-axis primitives only on the last axis (R-C11j).',
-    'C13': " Later: the scopes that trace user code with the substitutes installed isolate JAX's trace caches (R-C13h).", 'C14': " Later: memo keys that see a parameter only through __code__ / type() / __name__ are rejected (R-C14g); lowerings never mutate an equation's params dict in place (R-C14h); set algebra on dict views is hash-ordered, and dicts filled in such order must not be copied into model mappings (R-C14b); weak-valued module-level mappings are not keyed by id() (R-C14i).", 'C15': ' Later: the standard export clears an existing sidecar before saving, since onnx appends (R-C15e).',
+    'C13': " Later: the scopes that trace user code with the substitutes installed isolate JAX's trace caches (R-C13h).", 'C14': " Later: memo keys that see a parameter only through __code__ / type() / __name__ are rejected (R-C14g); lowerings never mutate an equation's params dict in place (R-C14h); set algebra on dict views is hash-ordered, and dicts filled in such order must not be copied into model mappings (R-C14b); weak-valued module-level mappings are not keyed by id() (R-C14i); registry entries found under a name-derived key are reused only after comparing the recorded object with the new one (R-C14j, known finding).", 'C15': ' Later: the standard export clears an existing sidecar before saving, since onnx appends (R-C15e).',
     'C16': ' Later: no finally block leaves through return / break / continue (R-C16e); every optimizer pass leaves a topologically sorted graph behind (R-C16f, mirror of C02 R-C02p).',
     'C19': ' Later: positional slots are not named after another positional parameter of the original (R-C19a positional-order); argument normalisers read every documented form the way the library does or refuse it (R-C19j, finite-domain evaluation); keywords that reach bind() through **kwargs are handled, read or listed inert (R-C19k); defaults of substitutes agree with those of the library (R-C19l); values taken out of **kwargs by name reach the computation (R-C19m); configuration fields read by the __call__ of a library module are read by its substitute or listed as inert / derived (R-C19n; nine confirmed dtype findings).'}
 
